@@ -31,6 +31,10 @@ def run(ctx, rep):
         wl, wo = RD.iterator_roles(fx, rep, "C07.R", impl)
         if wl:
             RD.check_with_lines(fx, rep, "C07.R", impl, wl, "C07.R")
+    # premise of "a throwable / cause line of a known class is rewritten": remap_throwable is remap_class on the class, the message
+    # passed through, None iff the class is unknown - and remap_class the exact lookup (both implementations)
+    import lookup_rules as LR
+    LR.check_class_lookup(fx, rep, "C07.T")
     TR.check_format_helpers(fx, rep, "C07.2")
     TR.check_display_templates(fx, rep, "C07.4")
     TR.check_classifiers(fx, rep, "C07.6")
